@@ -45,6 +45,8 @@ type State struct {
 	heap   map[string]string // component (incl. globals, ghost, $next) -> term
 	epoch  int               // components absent from heap have version "<leaf>@e<epoch>" ("@0" for epoch 0)
 	pepoch int               // same for protected components (ghost state, logger configuration, registry tables)
+
+	placeholder bool // spec-function definition: every component is a bound parameter "$h.<leaf>"
 }
 
 func epochName(leaf string, epoch int) string {
@@ -82,7 +84,7 @@ func (s *State) epochOf(leaf string) int {
 }
 
 func (s *State) clone() *State {
-	n := &State{regs: make(map[regKey]*Val, len(s.regs)), heap: make(map[string]string, len(s.heap)), epoch: s.epoch, pepoch: s.pepoch}
+	n := &State{regs: make(map[regKey]*Val, len(s.regs)), heap: make(map[string]string, len(s.heap)), epoch: s.epoch, pepoch: s.pepoch, placeholder: s.placeholder}
 	for k, v := range s.regs {
 		n.regs[k] = v
 	}
@@ -300,7 +302,10 @@ type Ctx struct {
 	closures      map[string]*closureInfo
 	quant         int
 	watermark     int
-	specFuns      map[*ssa.Function]string
+	specFuns      map[*ssa.Function]*specDef
+	phLeaves      [][2]string
+	invEntry      []string
+	inInv         bool
 	compSorts     map[string]string
 	nepoch        int
 	atCallSeen    map[*AtClause]bool
@@ -422,6 +427,18 @@ func (c *Ctx) compSort(leafSort string, dim int) string {
 
 // H returns the current term of a component, declaring its initial version on demand.
 func (c *Ctx) H(st *State, leaf, sort string) string {
+	if st.placeholder {
+		found := false
+		for _, l := range c.phLeaves {
+			if l[0] == leaf {
+				found = true
+			}
+		}
+		if !found {
+			c.phLeaves = append(c.phLeaves, [2]string{leaf, sort})
+		}
+		return sym("$h." + leaf)
+	}
 	if t, ok := st.heap[leaf]; ok {
 		return t
 	}
@@ -937,7 +954,7 @@ func (c *Ctx) mergeStates(sts []*State, conds []string) *State {
 	if len(sts) == 1 {
 		return sts[0].clone()
 	}
-	out := &State{regs: map[regKey]*Val{}, heap: map[string]string{}, epoch: sts[0].epoch, pepoch: sts[0].pepoch}
+	out := &State{regs: map[regKey]*Val{}, heap: map[string]string{}, epoch: sts[0].epoch, pepoch: sts[0].pepoch, placeholder: sts[0].placeholder}
 	for _, s := range sts[1:] {
 		if s.epoch != out.epoch {
 			// different unknown-heap epochs: components never touched so far become unknown
